@@ -281,6 +281,16 @@ def Env.blockVars (env : Env) (fs : FnScope) (id : Nat) (modified : List String)
 
 def symbolNames (vars : List String) : Expr := tupleE (vars.map strConst)
 
+/-- The `visit_If` template with the generated names filled in. -/
+def ifChunk (bv : Result) (decls : List Stmt) (test : Expr) (body orelse : List Stmt)
+    (getter setter bodyName orelseName : String) : List Stmt :=
+  stateFunctions bv.scopeVars decls getter setter ++
+  [fnDef bodyName [] (decls ++ body),
+   fnDef orelseName [] (decls ++ (if orelse.isEmpty then [.pass 0] else orelse))] ++
+  undefinedAssigns bv.undefined ++
+  [opCallStmt "if_stmt" [splice .load test, nameE bodyName, nameE orelseName, nameE getter, nameE setter,
+     symbolNames bv.scopeVars, intConst bv.nouts]]
+
 /-- `visit_If` after `generic_visit`: `body`, `orelse` are the already transformed blocks. -/
 def emitIf (env : Env) (fs : FnScope) (nm : Namer) (id : Nat) (test : Expr) (body orelse : List Stmt) :
     List Stmt × Namer :=
@@ -289,16 +299,20 @@ def emitIf (env : Env) (fs : FnScope) (nm : Namer) (id : Nat) (test : Expr) (bod
   let bv := env.blockVars fs id (bodyScope.bound ++ orelseScope.bound)
   let decls := nonlocalDecls fs bv.scopeVars
   let reserved := reservedOf (bodyScope.referenced ++ orelseScope.referenced)
-  let (getter, nm) := newSymbol nm "get_state" reserved
-  let (setter, nm) := newSymbol nm "set_state" reserved
-  let (bodyName, nm) := newSymbol nm "if_body" reserved
-  let (orelseName, nm) := newSymbol nm "else_body" reserved
-  let orelse := if orelse.isEmpty then [.pass 0] else orelse
-  (stateFunctions bv.scopeVars decls getter setter ++
-   [fnDef bodyName [] (decls ++ body), fnDef orelseName [] (decls ++ orelse)] ++
-   undefinedAssigns bv.undefined ++
-   [opCallStmt "if_stmt" [splice .load test, nameE bodyName, nameE orelseName, nameE getter, nameE setter,
-      symbolNames bv.scopeVars, intConst bv.nouts]], nm)
+  let n1 := newSymbol nm "get_state" reserved
+  let n2 := newSymbol n1.2 "set_state" reserved
+  let n3 := newSymbol n2.2 "if_body" reserved
+  let n4 := newSymbol n3.2 "else_body" reserved
+  (ifChunk bv decls test body orelse n1.1 n2.1 n3.1 n4.1, n4.2)
+
+/-- The `visit_While` template with the generated names filled in. -/
+def whileChunk (bv : Result) (decls : List Stmt) (opts : Expr) (test : Expr) (body : List Stmt)
+    (getter setter bodyName testName : String) : List Stmt :=
+  stateFunctions bv.scopeVars decls getter setter ++
+  [fnDef bodyName [] (decls ++ body), fnDef testName [] [.ret 0 [splice .load test]]] ++
+  undefinedAssigns bv.undefined ++
+  [opCallStmt "while_stmt" [nameE testName, nameE bodyName, nameE getter, nameE setter,
+     symbolNames bv.scopeVars, opts]]
 
 /-- `visit_While` after `generic_visit`. -/
 def emitWhile (env : Env) (fs : FnScope) (nm : Namer) (id : Nat) (test : Expr) (body : List Stmt) :
@@ -307,15 +321,27 @@ def emitWhile (env : Env) (fs : FnScope) (nm : Namer) (id : Nat) (test : Expr) (
   let bv := env.blockVars fs id bodyScope.bound
   let decls := nonlocalDecls fs bv.scopeVars
   let reserved := reservedOf bodyScope.referenced
-  let (getter, nm) := newSymbol nm "get_state" reserved
-  let (setter, nm) := newSymbol nm "set_state" reserved
-  let (bodyName, nm) := newSymbol nm "loop_body" reserved
-  let (testName, nm) := newSymbol nm "loop_test" reserved
-  (stateFunctions bv.scopeVars decls getter setter ++
-   [fnDef bodyName [] (decls ++ body), fnDef testName [] [.ret 0 [splice .load test]]] ++
-   undefinedAssigns bv.undefined ++
-   [opCallStmt "while_stmt" [nameE testName, nameE bodyName, nameE getter, nameE setter,
-      symbolNames bv.scopeVars, loopOptions env.dirs id []]], nm)
+  let n1 := newSymbol nm "get_state" reserved
+  let n2 := newSymbol n1.2 "set_state" reserved
+  let n3 := newSymbol n2.2 "loop_body" reserved
+  let n4 := newSymbol n3.2 "loop_test" reserved
+  (whileChunk bv decls (loopOptions env.dirs id []) test body n1.1 n2.1 n3.1 n4.1, n4.2)
+
+/-- The `visit_For` template with the generated names filled in; `extraDef` = name and expression of the
+`extra_test` function when the loop carries `anno.Basic.EXTRA_LOOP_TEST`. -/
+def forChunk (bv : Result) (decls : List Stmt) (opts : Expr) (target iter : Expr) (body : List Stmt)
+    (extraDef : Option (String × Expr)) (getter setter itr bodyName : String) : List Stmt :=
+  stateFunctions bv.scopeVars decls getter setter ++
+  [fnDef bodyName [itr] (decls ++ [.assign 0 [splice .store target] (nameE itr)] ++ body)] ++
+  (match extraDef with
+   | some (e, x) => [fnDef e [] (decls ++ [.ret 0 [splice .load x]])]
+   | none => []) ++
+  undefinedAssigns bv.undefined ++
+  [opCallStmt "for_stmt" [splice .load iter,
+     (match extraDef with
+      | some (e, _) => nameE e
+      | none => noneConst),
+     nameE bodyName, nameE getter, nameE setter, symbolNames bv.scopeVars, opts]]
 
 /-- `visit_For` after `generic_visit`; `extra` = `anno.Basic.EXTRA_LOOP_TEST` (list of length ≤ 1). -/
 def emitFor (env : Env) (fs : FnScope) (nm : Namer) (id : Nat) (target iter : Expr) (body : List Stmt)
@@ -325,23 +351,19 @@ def emitFor (env : Env) (fs : FnScope) (nm : Namer) (id : Nat) (target iter : Ex
   let bv := env.blockVars fs id (bodyScope.bound ++ iterScope.bound)
   let decls := nonlocalDecls fs bv.scopeVars
   let reserved := reservedOf (bodyScope.referenced ++ iterScope.referenced)
-  let (getter, nm) := newSymbol nm "get_state" reserved
-  let (setter, nm) := newSymbol nm "set_state" reserved
+  let n1 := newSymbol nm "get_state" reserved
+  let n2 := newSymbol n1.2 "set_state" reserved
   let opts := loopOptions env.dirs id [("iterate_names", strConst (unparseE target))]
-  let (extraFn, extraName, nm) : List Stmt × Expr × Namer :=
-    match extra with
-    | [] => ([], noneConst, nm)
-    | x :: _ =>
-      let (extraTestName, nm) := newSymbol nm "extra_test" reserved
-      ([fnDef extraTestName [] (decls ++ [.ret 0 [splice .load x]])], nameE extraTestName, nm)
-  let (itr, nm) := newSymbol nm "itr" reserved
-  let (bodyName, nm) := newSymbol nm "loop_body" reserved
-  (stateFunctions bv.scopeVars decls getter setter ++
-   [fnDef bodyName [itr] (decls ++ [.assign 0 [splice .store target] (nameE itr)] ++ body)] ++
-   extraFn ++
-   undefinedAssigns bv.undefined ++
-   [opCallStmt "for_stmt" [splice .load iter, extraName, nameE bodyName, nameE getter, nameE setter,
-      symbolNames bv.scopeVars, opts]], nm)
+  let n3 := newSymbol n2.2 "extra_test" reserved
+  let extraDef : Option (String × Expr) := match extra with
+    | [] => none
+    | x :: _ => some (n3.1, x)
+  let nmE := match extra with
+    | [] => n2.2
+    | _ :: _ => n3.2
+  let n4 := newSymbol nmE "itr" reserved
+  let n5 := newSymbol n4.2 "loop_body" reserved
+  (forChunk bv decls opts target iter body extraDef n1.1 n2.1 n4.1 n5.1, n5.2)
 
 /-! ## The transformer -/
 
